@@ -1,0 +1,105 @@
+//go:build verif
+// +build verif
+
+package decoder
+
+import (
+	"fmt"
+	"sync"
+	"sync/atomic"
+)
+
+// ---- cache identity monitor -------------------------------------------------------------
+//
+// A slot of the address-indexed decoder cache must only ever be hit by the type descriptor
+// that first populated it, and a cached decoder object must only ever be handed out for the
+// type descriptor it was first handed out for.
+
+var verifCacheArmed int32
+
+type VerifCacheStats struct {
+	Lookups, FastPath, SlowPath  uint64
+	Slots, Decoders              int
+	SlotCollision, DecoderShared uint64
+}
+
+var (
+	vcmu      sync.Mutex
+	vcOwner   = map[int]uintptr{}
+	vcDecType = map[Decoder]uintptr{}
+	vcStats   VerifCacheStats
+	vcReports []string
+)
+
+func VerifCacheArm(on bool) {
+	if on {
+		atomic.StoreInt32(&verifCacheArmed, 1)
+	} else {
+		atomic.StoreInt32(&verifCacheArmed, 0)
+	}
+}
+
+func VerifCacheTake() (VerifCacheStats, []string) {
+	vcmu.Lock()
+	defer vcmu.Unlock()
+	s, r := vcStats, vcReports
+	s.Slots = len(vcOwner)
+	s.Decoders = len(vcDecType)
+	vcStats = VerifCacheStats{}
+	vcReports = nil
+	return s, r
+}
+
+// VerifTypeAddr exposes the inferred layout of the type-descriptor region.
+func VerifTypeAddr() (base, max, shift, rng uintptr) {
+	initDecoder()
+	return typeAddr.BaseTypeAddr, typeAddr.MaxTypeAddr, typeAddr.AddrShift, typeAddr.AddrRange
+}
+
+func verifDecoder(typeptr uintptr, dec Decoder, index int) {
+	if atomic.LoadInt32(&verifCacheArmed) == 0 || dec == nil {
+		return
+	}
+	vcmu.Lock()
+	defer vcmu.Unlock()
+	vcStats.Lookups++
+	if t, ok := vcDecType[dec]; !ok {
+		vcDecType[dec] = typeptr
+	} else if t != typeptr {
+		vcStats.DecoderShared++
+		if len(vcReports) < 16 {
+			vcReports = append(vcReports, fmt.Sprintf("decoder object %T handed out for two type descriptors (index %d)", dec, index))
+		}
+	}
+	if index < 0 {
+		vcStats.SlowPath++
+		return
+	}
+	vcStats.FastPath++
+	if o, ok := vcOwner[index]; !ok {
+		vcOwner[index] = typeptr
+	} else if o != typeptr {
+		vcStats.SlotCollision++
+		if len(vcReports) < 16 {
+			vcReports = append(vcReports, fmt.Sprintf("decoder cache slot %d used by two type descriptors", index))
+		}
+	}
+}
+
+// ---- yield points -----------------------------------------------------------------------
+
+var verifYieldFn atomic.Value // func(string)
+
+// VerifSetYield installs (or with nil removes) the function called at every yield point.
+func VerifSetYield(f func(point string)) {
+	if f == nil {
+		f = func(string) {}
+	}
+	verifYieldFn.Store(f)
+}
+
+func verifYield(point string) {
+	if f, ok := verifYieldFn.Load().(func(string)); ok {
+		f(point)
+	}
+}
